@@ -119,7 +119,7 @@ func (c *genCtx) newProd(nn bool, depth int) int {
 	p.Expr = e
 	c.nullP[idx] = c.nullable(e)
 	if c.o.PosStyles {
-		p.PosStyle = c.draw(0, 4, "posstyle")
+		p.PosStyle = c.draw(0, 7, "posstyle")
 	}
 	p.TagStyle = c.draw(0, 1, "tagstyle")
 	p.Tight = rapid.Bool().Draw(c.t, "tight")
@@ -691,6 +691,14 @@ func assignFields(t *rapid.T, p *Prod, e *Expr, pi int) {
 			}
 			k := rapid.SampledFrom(kinds).Draw(t, "fk")
 			n := len(p.Fields)
+			if n > 0 && rapid.IntRange(0, 3).Draw(t, "samekind") == 0 {
+				// several captures accumulating in one field: take the previous field's kind if this capture may have it
+				for _, cand := range kinds {
+					if cand == p.Fields[n-1].Kind {
+						k = cand
+					}
+				}
+			}
 			if n > 0 && p.Fields[n-1].Kind == k && rapid.Bool().Draw(t, "reuse") {
 				e.Field = n - 1
 			} else {
